@@ -7,6 +7,7 @@ import (
 	"math"
 	"net/http"
 	"strings"
+	"sync"
 	"testing"
 	"time"
 
@@ -62,6 +63,75 @@ type EncCase struct {
 	Protocol string `json:"protocol"`
 	Kind     string `json:"kind"`
 	D        int64  `json:"d_ns"` // 0: no deadline
+	// Source says who puts the deadline on the call's context: "" / "caller"
+	// (the context passed to the call), "interceptor" (a client interceptor
+	// derives it), "interceptor-shortens" (the caller's is twice as long).
+	Source string `json:"source,omitempty"`
+}
+
+// deadliner is a client interceptor that gives every call a timeout, the way
+// a "default timeout" interceptor does.
+type deadliner struct {
+	d       time.Duration
+	mu      sync.Mutex
+	cancels []context.CancelFunc
+}
+
+func (d *deadliner) WrapUnary(next connect.UnaryFunc) connect.UnaryFunc {
+	return func(ctx context.Context, req connect.AnyRequest) (connect.AnyResponse, error) {
+		if !req.Spec().IsClient {
+			return next(ctx, req)
+		}
+		ctx, cancel := context.WithTimeout(ctx, d.d)
+		defer cancel()
+		return next(ctx, req)
+	}
+}
+
+func (d *deadliner) WrapStreamingClient(next connect.StreamingClientFunc) connect.StreamingClientFunc {
+	return func(ctx context.Context, spec connect.Spec) connect.StreamingClientConn {
+		ctx, cancel := context.WithTimeout(ctx, d.d)
+		d.mu.Lock()
+		d.cancels = append(d.cancels, cancel)
+		d.mu.Unlock()
+		return next(ctx, spec)
+	}
+}
+
+func (d *deadliner) WrapStreamingHandler(next connect.StreamingHandlerFunc) connect.StreamingHandlerFunc {
+	return next
+}
+
+func (d *deadliner) release() {
+	d.mu.Lock()
+	defer d.mu.Unlock()
+	for _, c := range d.cancels {
+		c()
+	}
+}
+
+// deadlineSetup returns the context to call with and the extra client options
+// that realise (D, source).
+func deadlineSetup(d int64, source string) (context.Context, func(), []connect.ClientOption) {
+	ctx := context.Background()
+	if d <= 0 {
+		return ctx, func() {}, nil
+	}
+	switch source {
+	case "interceptor", "interceptor-shortens":
+		cancel := func() {}
+		if source == "interceptor-shortens" && d < math.MaxInt64/2 {
+			ctx, cancel = context.WithTimeout(ctx, time.Duration(2*d))
+		}
+		di := &deadliner{d: time.Duration(d)}
+		return ctx, func() { di.release(); cancel() }, []connect.ClientOption{connect.WithInterceptors(di)}
+	}
+	ctx, cancel := context.WithTimeout(ctx, time.Duration(d))
+	return ctx, cancel, nil
+}
+
+func sourceGen(t *rapid.T) string {
+	return rapid.SampledFrom([]string{"caller", "caller", "interceptor", "interceptor-shortens"}).Draw(t, "source")
 }
 
 func timeoutHeader(protocol string) string {
@@ -79,18 +149,14 @@ func checkEnc(tt *testing.T, c EncCase) (pbt.Info, error) {
 	berr := pbt.Bubble(tt, func() error {
 		resp, _ := refwire.BuildResponse(&refwire.RespSpec{Protocol: c.Protocol, Kind: c.Kind, ContentType: refwire.ContentType(c.Protocol, c.Kind, "proto"), Msgs: [][]byte{nil}})
 		sc := memnet.NewScript(resp.Status, resp.Header, bytes.NewReader(resp.Body), resp.Trailer)
-		ctx := context.Background()
-		var cancel context.CancelFunc = func() {}
-		if c.D > 0 {
-			ctx, cancel = context.WithTimeout(ctx, time.Duration(c.D))
-		}
+		ctx, cancel, extra := deadlineSetup(c.D, c.Source)
 		defer cancel()
 		cfg := prog.Config{Protocol: c.Protocol, Codec: "proto", Kind: c.Kind}
 		cp := &prog.ClientProg{Msgs: []prog.Msg{{N: 1}}}
 		if c.Kind == prog.Bidi {
 			cp.Ops = []prog.COp{{Op: "send", Msg: &prog.Msg{N: 1}}, {Op: "closereq"}, {Op: "recvall"}, {Op: "closeresp"}}
 		}
-		_ = prog.RunClient(ctx, sc, cfg, cp, nil)
+		_ = prog.RunClient(ctx, sc, cfg, cp, nil, extra...)
 		sc.WaitRequest()
 		got = sc.ReqHeader.Values(timeoutHeader(c.Protocol))
 		return nil
@@ -98,7 +164,8 @@ func checkEnc(tt *testing.T, c EncCase) (pbt.Info, error) {
 	if berr != nil {
 		return info, berr
 	}
-	where := fmt.Sprintf("%s %s client, remaining %d ns", c.Protocol, c.Kind, c.D)
+	where := fmt.Sprintf("%s %s client, remaining %d ns (deadline set by %s)", c.Protocol, c.Kind, c.D, c.Source)
+	info.Label("source:" + c.Source)
 	if c.D == 0 {
 		info.Label("no-deadline")
 		if len(got) != 0 {
@@ -179,11 +246,12 @@ var specEnc = pbt.Spec[EncCase]{
 		c := EncCase{Protocol: rapid.SampledFrom(prog.Protocols).Draw(t, "protocol"), Kind: rapid.SampledFrom(prog.Kinds).Draw(t, "kind")}
 		if rapid.IntRange(0, 9).Draw(t, "nodeadline") != 0 {
 			c.D = durGen(t)
+			c.Source = sourceGen(t)
 		}
 		return c
 	},
 	Check: checkEnc,
-	Rule:  "client calls inside a synctest bubble (time.Until is exact) with remaining time drawn from every unit × digit-count boundary ±3 ns, the 10-digit Connect limit, MaxInt64, log-uniform and uniform values, or no deadline; the timeout header seen by HTTPClient.Do is parsed by the reference grammar; oracle: T ≤ remaining, remaining − T < granularity (1 ms Connect, 0.01 % gRPC), grammar respected, inexpressible ⇒ omitted, no deadline ⇒ no header; non-trivial = within 1 ms of a unit/digit boundary or of the largest expressible value",
+	Rule:  "client calls inside a synctest bubble (time.Until is exact) with the deadline put on the context by the caller or by a client interceptor (a default-timeout interceptor, alone or shortening the caller's), remaining time drawn from every unit × digit-count boundary ±3 ns, the 10-digit Connect limit, MaxInt64, log-uniform and uniform values, or no deadline; the timeout header seen by HTTPClient.Do is parsed by the reference grammar; oracle: T ≤ remaining, remaining − T < granularity (1 ms Connect, 0.01 % gRPC), grammar respected, inexpressible ⇒ omitted, no deadline ⇒ no header; non-trivial = within 1 ms of a unit/digit boundary or of the largest expressible value",
 }
 
 func TestEncode(t *testing.T) { pbt.Run(t, specEnc) }
@@ -390,6 +458,7 @@ type E2ECase struct {
 	Kind      string `json:"kind"`
 	Transport string `json:"transport"`
 	D         int64  `json:"d_ns"`
+	Source    string `json:"source,omitempty"` // see EncCase
 }
 
 func checkE2E(tt *testing.T, c E2ECase) (pbt.Info, error) {
@@ -400,23 +469,20 @@ func checkE2E(tt *testing.T, c E2ECase) (pbt.Info, error) {
 	var start time.Time
 	var res *prog.CResult
 	if err := harn.Over(tt, c.Transport, h, func(hc connect.HTTPClient, mem *memnet.Mem) {
-		ctx := context.Background()
-		var cancel context.CancelFunc = func() {}
 		start = time.Now()
-		if c.D > 0 {
-			ctx, cancel = context.WithTimeout(ctx, time.Duration(c.D))
-		}
+		ctx, cancel, extra := deadlineSetup(c.D, c.Source)
 		defer cancel()
 		cfg := prog.Config{Protocol: c.Protocol, Codec: "proto", Kind: c.Kind}
 		cp := &prog.ClientProg{Msgs: []prog.Msg{{N: 1}}}
 		if c.Kind == prog.Bidi {
 			cp.Ops = []prog.COp{{Op: "send", Msg: &prog.Msg{N: 1}}, {Op: "closereq"}, {Op: "recvall"}, {Op: "closeresp"}}
 		}
-		res = prog.RunClient(ctx, hc, cfg, cp, nil)
+		res = prog.RunClient(ctx, hc, cfg, cp, nil, extra...)
 	}); err != nil {
 		return info, err
 	}
-	where := fmt.Sprintf("%s %s over %s, client deadline in %d ns", c.Protocol, c.Kind, c.Transport, c.D)
+	where := fmt.Sprintf("%s %s over %s, client deadline in %d ns (set by %s)", c.Protocol, c.Kind, c.Transport, c.D, c.Source)
+	info.Label("source:" + c.Source)
 	calls := log.Snapshot()
 	if len(calls) != 1 {
 		return info, fmt.Errorf("%s: handler ran %d times (%v)", where, len(calls), res.Err)
@@ -457,6 +523,7 @@ var specE2E = pbt.Spec[E2ECase]{
 		if rapid.IntRange(0, 9).Draw(t, "nodeadline") != 0 {
 			// at least 1 ms so that the call itself cannot expire (virtual time does not advance while it runs)
 			c.D = max(durGen(t), 1e6)
+			c.Source = sourceGen(t)
 		}
 		return c
 	},
